@@ -29,7 +29,10 @@ def build(n, edges, labels, node_order, edge_order):
     G.add_nodes_from(labels[i] for i in node_order)
     for k in edge_order:
         u, v = edges[k]
-        G.add_edge(labels[u], labels[v])
+        # attributes are defined on the structure (canonical edge / node), not on labels or order
+        G.add_edge(labels[u], labels[v], w=0.5 + 0.3 * k)
+    for c in range(n):
+        G.nodes[labels[c]]["rw"] = 0.6 + 0.25 * c
     return G
 
 
@@ -87,9 +90,10 @@ def run_spec(spec, props=("C14",)):
                 continue
             inf = cat.info(name)
             for full in ((False, True) if inf["hasfull"] else (False,)):
-                for use_nodelist in ((False, True) if inf["node"] else (False,)):
+                for use_nodelist, wts in (((False, None), (True, None), (True, ("w", "rw")), (False, ("w", "rw"))) if inf["node"] else ((False, None),)):
+                    tw_, rw_ = wts if wts else (None, None)
                     try:
-                        ref = canon_out(name, cat.call(EoN, name, G0, ic_c, tau, gamma, grid, full,
+                        ref = canon_out(name, cat.call(EoN, name, G0, ic_c, tau, gamma, grid, full, tw=tw_, rw=rw_,
                                                        nodelist=(list(G0.nodes()) if use_nodelist else None)), full, G0, ident)
                     except Exception as e:
                         continue        # failures on the canonical labelling belong to C06
@@ -98,12 +102,12 @@ def run_spec(spec, props=("C14",)):
                     for (vname, labels, no, eo) in variants:
                         G = build(n, edges, labels, no, eo)
                         A.evals += 1
-                        tag = "%s(%r, full=%s%s) on n=%d edges=%r relabelled %s %r node order %r" % (name, ic_c, full, ", nodelist" if use_nodelist else "", n, edges, vname, labels, no)
+                        tag = "%s(%r, full=%s%s%s) on n=%d edges=%r relabelled %s %r node order %r" % (name, ic_c, full, ", nodelist" if use_nodelist else "", ", weighted" if wts else "", n, edges, vname, labels, no)
                         nl = None
                         if use_nodelist:
                             nl = [labels[i] for i in reversed(no)]      # an explicit nodelist in yet another order
                         try:
-                            o = cat.call(EoN, name, G, map_ic(ic0, labels), tau, gamma, grid, full, nodelist=nl)
+                            o = cat.call(EoN, name, G, map_ic(ic0, labels), tau, gamma, grid, full, nodelist=nl, tw=tw_, rw=rw_)
                             if nl is not None:
                                 # rows follow the given nodelist
                                 H = nx.Graph(); H.add_nodes_from(nl)
@@ -113,8 +117,8 @@ def run_spec(spec, props=("C14",)):
                         except Exception as e:
                             A.add(V("C14", name, vname, "exception", "%s raised %s: %s (the canonical labelling works)" % (tag, type(e).__name__, str(e)[:100])))
                             continue
-                        A.states.add((name, full, use_nodelist, vname, hsh((labels, no, eo))))
-                        A.nontrivial.add((name, full, use_nodelist, vname, hsh((labels, no, eo))))
+                        A.states.add((name, full, use_nodelist, bool(wts), vname, hsh((labels, no, eo))))
+                        A.nontrivial.add((name, full, use_nodelist, bool(wts), vname, hsh((labels, no, eo))))
                         A.trans.add((name, vname))
                         N = float(n)
                         bad = None
@@ -150,6 +154,9 @@ def run_spec(spec, props=("C14",)):
                                                    initial_recovereds=r0 or None, return_full_data=True)
             outs["fast_nonMarkov_SIR"] = EoN.fast_nonMarkov_SIR(G, trans_time_fxn=lambda u, v: Tdelay[(inv[u], inv[v])], rec_time_fxn=lambda u: Tdur[inv[u]],
                                                                initial_infecteds=i0, initial_recovereds=r0 or None, return_full_data=True)
+            tmx = sorted(Tdelay.values())[len(Tdelay) // 2] + 0.05 if n > 1 else 1.0   # a horizon that cuts some transmissions off
+            outs["fast_nonMarkov_SIR[tmax]"] = EoN.fast_nonMarkov_SIR(G, trans_time_fxn=lambda u, v: Tdelay[(inv[u], inv[v])], rec_time_fxn=lambda u: Tdur[inv[u]],
+                                                                     initial_infecteds=i0, initial_recovereds=r0 or None, tmax=tmx, return_full_data=True)
             outs["fast_nonMarkov_SIS"] = EoN.fast_nonMarkov_SIS(G, trans_time_fxn=lambda u, v, d: [x for x in (Tdelay[(inv[u], inv[v])], Tdelay[(inv[u], inv[v])] + 0.41) if x < d],
                                                                rec_time_fxn=lambda u: Tdur[inv[u]], initial_infecteds=i0, tmax=4.0, return_full_data=True)
             res = {}
